@@ -357,6 +357,7 @@ class World(object):
         self.dd_hosts = None
         self.dd_calls = 0
         self.dd_rev = 0
+        self.lazy_runs = {}
         self.nested_depth = 0
 
     def v(self, cat, msg):
@@ -578,12 +579,15 @@ class World(object):
             r = 5
         elif op == "lz":
             lid = lf[1]
-            if lf[2] == "ok":
-                r = Future(lambda: ("z", lid))
-            else:
-                def prov(lid=lid):
-                    raise self.err(HErr, ("lz", lid))
-                r = Future(prov)
+
+            def prov(lid=lid, ok=(lf[2] == "ok")):
+                n = self.lazy_runs[lid] = self.lazy_runs.get(lid, 0) + 1
+                if n > 1:
+                    self.v("provider-ran-twice", "the value provider of lazily computed future %s ran %d times" % (lid, n))
+                if ok:
+                    return ("z", lid)
+                raise self.err(HErr, ("lz", lid))
+            r = Future(prov)
             self.keep.append(r)
         elif op == "sh":
             idx = lf[2]
@@ -906,8 +910,10 @@ class World(object):
             _tools.DeduplicateDecorator.tasks.clear()
         if not self.keep_scheduler:
             _sched.reset()
-            _profiler.reset()
-            _batching._debug_batch_state.batches.clear()
+            if not self.threaded:
+                # a fresh thread must find fresh per-thread state by itself (C16): do not mask that by resetting it
+                _profiler.reset()
+                _batching._debug_batch_state.batches.clear()
         sch = _sched.get_scheduler()
         self.scheduler = sch
         sch.on_before_batch_flush.subscribe(self.on_before)
